@@ -151,6 +151,10 @@ def gen_case(seed, tier, i):
         elif r < 0.45:
             ops.append({'op': 'gc'})
     cwd_in = rng.random() < 0.6
+    # where the project lives relative to the environment's own sys.path: elsewhere, nested
+    # below an entry (monorepo checkout under a PYTHONPATH directory), or a sibling whose name
+    # merely starts with an entry
+    place = rng.choice(['elsewhere', 'elsewhere', 'nested', 'sibling'])
     faults = []
     if rng.random() < 0.3:
         faults.append({'fn': 'get_module_info', 'occ': rng.randint(1, 6), 'phase': 'reply_exception', 'exc': 'RuntimeError'})
@@ -161,7 +165,7 @@ def gen_case(seed, tier, i):
             # '' on the host's sys.path (interactive session / python -c / embedding host) - but never
             # together with cwd inside the project: then ANY lazy stdlib import of the host program
             # resolves to project files (math.py ...), which is Python's doing, not jedi's
-            'host_path_empty_entry': (not cwd_in) and rng.random() < 0.7}
+            'host_path_empty_entry': (not cwd_in) and rng.random() < 0.7, 'place': place}
 
 
 class C12(base.Engine):
@@ -186,6 +190,11 @@ class C12(base.Engine):
         root = driver.new_root('c12')
         try:
             extra = {'cwd': 'w'} if case.get('cwd_in_project') else {}
+            if case.get('place') == 'nested':
+                extra['extra_pythonpath'] = ['.']            # <root> is on the environment's path, project is <root>/w
+            elif case.get('place') == 'sibling':
+                extra['world_dir'] = 'w-proj'                # <root>/w is on the path, project is <root>/w-proj
+                extra['extra_pythonpath'] = ['w']
             if case.get('host_path_empty_entry'):
                 extra['host_path_empty_entry'] = True
             events, bad = driver.run_history(case, root, inv=['sentinel', 'host', 'helper'], extra=extra)
@@ -210,6 +219,7 @@ class C12(base.Engine):
         st['digest'] = driver.events_digest(events)
         st['popt'] = case['popt']
         st['env'] = case.get('env')
+        st['place'] = case.get('place')
         st['names'] = case['names']
         if problems:
             return {'verdict': 'violation', 'sig': problems[0][0],
@@ -258,6 +268,7 @@ class C12(base.Engine):
                     tot[k] += v
             popts[st.get('popt')] += 1
             tot['env:%s' % st.get('env')] += 1
+            tot['place:%s' % st.get('place')] += 1
             for n in st.get('names', []):
                 names[n] += 1
             if st.get('helper_requests', 0) > 0:
@@ -280,6 +291,7 @@ class C12(base.Engine):
             'refactorings_applied': tot['applied'],
             'project_options': dict(popts),
             'environments': {k[4:]: v for k, v in tot.items() if k.startswith('env:')},
+            'project_placement': {k[6:]: v for k, v in tot.items() if k.startswith('place:')},
             'adversarial_names': dict(names),
         }
 
